@@ -984,6 +984,12 @@ def perm_cases(tier, rng):
                     ops = [['E', ['c', i, 0]] for i in p[:k]] + [['S', 0, _tok(v)]] + \
                           [['E', ['c', i, 0]] for i in p[k:]] + tail
                     yield {'cfg': cfg, 'nodes': nodes, 'tag': 'permset', 'ops': ops}
+                    if p[k:]:
+                        # the cells not yet built are first reached through the enclosing range / the row form
+                        whole = next(i for i, n in enumerate(nodes) if n[1] == 'Sheet1!A1:D1')
+                        via = ['r', whole, 0] if (k + len(p)) % 2 else ['u', 'Sheet1', 0, 1, 0, 1, 0]
+                        yield {'cfg': cfg, 'nodes': nodes, 'tag': 'permset',
+                               'ops': ops[:k + 1] + [['E', via]] + ops[k + 1:]}
     # permutations of mixed first-evaluation paths (ranges, unbounded forms, sequences) on W1 and W3
     for wi in (0, 2):
         w, spell = books[wi]
